@@ -12,9 +12,10 @@
 (* Species keys are atomic space-free strings with one attribute: the bracket they begin with *)
 (* (lead), so that keys like "(NH4)2SO4" are told apart from parenthesised terms by the       *)
 (* grammar, never by their first character.                                                   *)
-(* A second phase prints every read line that has no inactive group (coefficient omitted iff  *)
-(* it is 1, each species once, parameter to three significant digits) and parses the printed  *)
-(* tokens again: ParsePrintIdentity.                                                          *)
+(* A second phase prints every read text that has no inactive group under every printing      *)
+(* option (with_param x with_name; coefficient omitted iff it is 1, each species once,        *)
+(* parameter to three significant digits) and parses the printed tokens again:                *)
+(* ParsePrintIdentity.                                                                        *)
 EXTENDS Integers, Sequences, FiniteSets, FiniteSetsExt, TLC, Json, Rational, Decimal
 
 CONSTANTS
@@ -33,7 +34,8 @@ CONSTANTS
     MaxLines,     \* reaction lines per text
     Comments,     \* comment / blank line texts
     MaxComments,
-    FaultKinds    \* subset of {"unknownkey", "missingarrow", "wrongarrow"}
+    FaultKinds,   \* subset of {"unknownkey", "missingarrow", "wrongarrow"}
+    PrintOpts     \* printing options tried in the second phase: records [wp |-> with_param, wn |-> with_name]
 
 VARIABLES doc, line, toks, den, lines, side, nside, ninact, stage, fault, allowed, arrow, klass,
           ncom, printed, reparsed
@@ -243,9 +245,14 @@ PrintSide(m, s) ==
     [i \in 1..Len(ks) |-> [k |-> "term", side |-> s, form |-> IF m[ks[i]] = QOne THEN "bare" ELSE "n",
                            coef |-> PCoef(m[ks[i]]), key |-> Key(ks[i], "")]]
 PrintedParam(p) == IF p.some THEN SomeParam(RoundSig(p.v, 3)) ELSE NoParam
-PrintTokens(d, a) ==
+\* printing takes two options: with_param (the parameter is printed) and with_name (the name is
+\* printed after it).  A printed name ("A -> B; 2.5; r1") is not part of the notation, so printing
+\* WITH names is a second-phase option only for texts whose reactions carry no name.
+Opt(wp, wn) == [wp |-> wp, wn |-> wn]
+AllPrintOpts == { Opt(a, b) : a \in BOOLEAN, b \in BOOLEAN }
+PrintTokens(d, a, o) ==
     PrintSide(d.reac, "reac") \o <<[k |-> "arrow", a |-> a]>> \o PrintSide(d.prod, "prod")
-    \o (IF d.param.some THEN <<[k |-> "param", v |-> RoundSig(d.param.v, 3), style |-> "sci"]>> ELSE <<>>)
+    \o (IF o.wp /\ d.param.some THEN <<[k |-> "param", v |-> RoundSig(d.param.v, 3), style |-> "sci"]>> ELSE <<>>)
 \* reading printed tokens: the same declarative denotation (printed coefficients are rationals)
 PSideMap(ts, s) ==
     LET I == TermsOn(ts, "term", s) IN
@@ -256,18 +263,27 @@ ParsePrinted(ts) ==
      param |-> ParamOf(ts), ref |-> "", name |-> ""]
 
 HasInactive(d) == d.ireac # EmptyM \/ d.iprod # EmptyM
+HasName == \E i \in 1..Len(lines) : lines[i].den.name # ""
+Applicable(o) == o.wn => ~HasName
+OptSeq == SetSeq({ o \in PrintOpts : Applicable(o) })
 Printable == /\ fault = "none" /\ lines # <<>>
-             /\ \A i \in 1..Len(lines) : ~HasInactive(lines[i].den) /\ lines[i].den.name = ""
+             /\ \A i \in 1..Len(lines) : ~HasInactive(lines[i].den)
+             /\ OptSeq # <<>>
 
+\* every applicable printing option is applied to the whole text
 PrintText ==
     /\ stage = "read" /\ Printable
-    /\ printed' = [i \in 1..Len(lines) |-> PrintTokens(lines[i].den, arrow)]
+    /\ printed' = [j \in 1..Len(OptSeq) |->
+                      [opt |-> OptSeq[j],
+                       lines |-> [i \in 1..Len(lines) |-> PrintTokens(lines[i].den, arrow, OptSeq[j])]]]
     /\ stage' = "printed"
     /\ UNCHANGED <<doc, line, toks, den, lines, side, nside, ninact, fault, allowed, arrow, klass, ncom, reparsed>>
 
 ParseText ==
     /\ stage = "printed"
-    /\ reparsed' = [i \in 1..Len(printed) |-> ParsePrinted(printed[i])]
+    /\ reparsed' = [j \in 1..Len(printed) |->
+                       [opt |-> printed[j].opt,
+                        lines |-> [i \in 1..Len(printed[j].lines) |-> ParsePrinted(printed[j].lines[i])]]]
     /\ stage' = "final"
     /\ UNCHANGED <<doc, line, toks, den, lines, side, nside, ninact, fault, allowed, arrow, klass, ncom, printed>>
 
@@ -321,14 +337,24 @@ InactiveNeverActive ==
 
 \* what reading the printed text must give back: the same species and coefficients, the
 \* parameter to the printed precision, nothing inactive
-RoundTrip(d) == [d EXCEPT !.param = PrintedParam(d.param), !.ref = "", !.name = ""]
+StoichParamEq(d1, d2) == d1.reac = d2.reac /\ d1.prod = d2.prod /\ d1.ireac = d2.ireac /\ d1.iprod = d2.iprod
+                         /\ d1.param = d2.param
+\* (printed without parameter: no parameter comes back; names and references are never read back)
+RoundTrip(d, o) == [d EXCEPT !.param = IF o.wp THEN PrintedParam(d.param) ELSE NoParam, !.ref = "", !.name = ""]
+\* the re-read object compares equal to the original iff no parameter was lost or rounded
+\* (equality of reactions ignores names and references)
+ExactUnder(d, o) == ~d.param.some \/ (o.wp /\ NumSig(d.param.v) <= 3)
 ParsePrintIdentity ==
     stage = "final" =>
-        /\ Len(reparsed) = Len(lines)
-        /\ \A i \in 1..Len(lines) :
-              /\ reparsed[i] = RoundTrip(lines[i].den)
-              /\ (lines[i].den.param.some =>
-                     WithinHalfUlpExact(reparsed[i].param.v, lines[i].den.param.v, 3))
+        /\ Len(reparsed) = Len(OptSeq) /\ Len(reparsed) >= 1
+        /\ \A j \in 1..Len(reparsed) :
+              /\ reparsed[j].opt = OptSeq[j] /\ Len(reparsed[j].lines) = Len(lines)
+              /\ \A i \in 1..Len(lines) :
+                    /\ reparsed[j].lines[i] = RoundTrip(lines[i].den, reparsed[j].opt)
+                    /\ ((lines[i].den.param.some /\ reparsed[j].opt.wp) =>
+                           WithinHalfUlpExact(reparsed[j].lines[i].param.v, lines[i].den.param.v, 3))
+                    /\ (ExactUnder(lines[i].den, reparsed[j].opt) =>
+                           StoichParamEq(reparsed[j].lines[i], lines[i].den))
 
 ------------------------------------------------------------------------------
 (* case export *)
@@ -341,8 +367,9 @@ DenJ(d) == [reac |-> Pairs(d.reac), prod |-> Pairs(d.prod), ireac |-> Pairs(d.ir
 \* the round trip may give the parameter back exactly or rounded to three digits (either neighbour on a tie)
 RTParamJ(p) == IF p.some THEN [some |-> TRUE, allowed |-> SetSeq({DecJ(r) : r \in RoundSigSet(p.v, 3) \cup {p.v}})]
                ELSE [some |-> FALSE]
-RTJ(d) == [reac |-> Pairs(d.reac), prod |-> Pairs(d.prod), param |-> RTParamJ(d.param),
-           exact |-> (~d.param.some \/ NumSig(d.param.v) <= 3)]
+RTJ(d, o) == [reac |-> Pairs(d.reac), prod |-> Pairs(d.prod),
+              param |-> IF o.wp THEN RTParamJ(d.param) ELSE [some |-> FALSE],
+              exact |-> ExactUnder(d, o)]
 \* constructor checks that are not properties of reading the text (documented defaults):
 \* all coefficients integral, some net effect
 AllKeys(d) == DOMAIN d.reac \cup DOMAIN d.prod \cup DOMAIN d.ireac \cup DOMAIN d.iprod
@@ -352,8 +379,14 @@ NonIntegral(d) == \E f \in {"reac", "prod", "ireac", "iprod"} : \E k \in DOMAIN 
 NeedsNoChecks(d) == NetZero(d) \/ NonIntegral(d)
 StoichEq(d1, d2) == d1.reac = d2.reac /\ d1.prod = d2.prod /\ d1.ireac = d2.ireac /\ d1.iprod = d2.iprod
                     /\ d1.param = d2.param
-Duplicates == \E i, j \in 1..Len(lines) : i < j /\ StoichEq(lines[i].den, lines[j].den)
+\* (systems also refuse two reactions with the same name by default)
+Duplicates == \E i, j \in 1..Len(lines) : i < j /\ (StoichEq(lines[i].den, lines[j].den)
+                  \/ (lines[i].den.name # "" /\ lines[i].den.name = lines[j].den.name))
 
+\* reading the printed text may meet duplicates that the original did not have (parameters dropped
+\* or rounded to the same three digits): the default duplicate check is then switched off as well
+RTDuplicates(o) == \E i, j \in 1..Len(lines) : i < j /\
+                      StoichParamEq(RoundTrip(lines[i].den, o), RoundTrip(lines[j].den, o))
 TokSet == UNION { { lines[i].toks[j] : j \in 1..Len(lines[i].toks) } : i \in 1..Len(lines) }
 TermToks == { t \in TokSet : t.k \in {"term", "inact"} }
 \* a bare term (no coefficient) whose key itself begins with a parenthesis
@@ -392,6 +425,10 @@ CaseRec ==
                                           /\ t.key.lead = "(" /\ t.key.t \notin allowed.keys),
                 copy_eq |-> TRUE,
                 printable |-> (stage = "final"),
-                rt |-> IF stage = "final" THEN [i \in 1..Len(lines) |-> RTJ(lines[i].den)] ELSE <<>> ] ]
+                rt |-> IF stage = "final"
+                       THEN [j \in 1..Len(OptSeq) |->
+                               [wp |-> OptSeq[j].wp, wn |-> OptSeq[j].wn, duplicates |-> RTDuplicates(OptSeq[j]),
+                                lines |-> [i \in 1..Len(lines) |-> RTJ(lines[i].den, OptSeq[j])]]]
+                       ELSE <<>> ] ]
 Emit == Terminal => PrintT(<<"CASE", ToJson(CaseRec)>>)
 =============================================================================
